@@ -529,43 +529,53 @@ func shouldUseDigitPrefilter(re *syntax.Regexp, nfaSize int, config Config) bool
 // fail — the greedy quantifier consumes to the same end-of-run regardless of
 // starting position, so the DFA reaches the same state at the same byte.
 func isDigitRunSkipSafe(re *syntax.Regexp) bool {
+	return leadingDigitRunClass(re) != nil
+}
+
+// leadingDigitRunClass returns the ranges of the leading digit class when it has a
+// greedy unbounded quantifier, nil otherwise.
+func leadingDigitRunClass(re *syntax.Regexp) []rune {
 	if re == nil {
-		return false
+		return nil
 	}
 	switch re.Op {
-	case syntax.OpConcat:
+	case syntax.OpConcat, syntax.OpCapture:
 		if len(re.Sub) == 0 {
-			return false
+			return nil
 		}
-		return isDigitRunSkipSafe(re.Sub[0])
-	case syntax.OpCapture:
-		if len(re.Sub) == 0 {
-			return false
-		}
-		return isDigitRunSkipSafe(re.Sub[0])
+		return leadingDigitRunClass(re.Sub[0])
 	case syntax.OpPlus, syntax.OpStar:
 		// + or * on a digit class: greedy unbounded → safe to skip
-		if len(re.Sub) == 1 && re.Sub[0].Op == syntax.OpCharClass {
-			return isFullDigitClass(re.Sub[0].Rune)
+		if len(re.Sub) == 1 && re.Sub[0].Op == syntax.OpCharClass && isDigitOnlyClass(re.Sub[0].Rune) {
+			return re.Sub[0].Rune
 		}
-		return false
+		return nil
 	case syntax.OpRepeat:
 		// {N,} with no upper bound (Max == -1): greedy unbounded → safe
-		if re.Max == -1 && len(re.Sub) == 1 && re.Sub[0].Op == syntax.OpCharClass {
-			return isFullDigitClass(re.Sub[0].Rune)
+		if re.Max == -1 && len(re.Sub) == 1 && re.Sub[0].Op == syntax.OpCharClass && isDigitOnlyClass(re.Sub[0].Rune) {
+			return re.Sub[0].Rune
 		}
-		return false
+		return nil
 	default:
-		return false
+		return nil
 	}
 }
 
-// isFullDigitClass reports whether the class is exactly [0-9]. Only then does every
-// byte of a digit run belong to the class: with a subset such as [0-5] a match can
-// start inside a run whose first digit is outside the class ("65a" for [0-5]+a), so
-// the rest of the run must not be skipped after a failed attempt.
-func isFullDigitClass(runes []rune) bool {
-	return len(runes) == 2 && runes[0] == '0' && runes[1] == '9'
+// digitRunMask returns one bit per digit of the leading class (bit d for '0'+d).
+// Only a run of bytes that all belong to the class behaves alike: with a subset such
+// as [0-5] a match can start inside a digit run whose first digit is outside the
+// class ("65a" for [0-5]+a), so a failed attempt may only skip the digits of the
+// class that follow a start inside the class.
+func digitRunMask(class []rune) uint16 {
+	var mask uint16
+	for i := 0; i+1 < len(class); i += 2 {
+		for r := class[i]; r <= class[i+1]; r++ {
+			if r >= '0' && r <= '9' {
+				mask |= 1 << uint(r-'0')
+			}
+		}
+	}
+	return mask
 }
 
 // isSafeForReverseSuffix checks if a pattern is safe for UseReverseSuffix strategy.
